@@ -174,7 +174,11 @@ def main():
                checker_cmd=checker_cmd,
                trusted_base=["Coq 8.16.1 kernel + vm_compute (no native_compute)"] +
                             ["axiom: " + a for a in proof["axioms"]] +
-                            list(getattr(mod, "TRUSTED", [])),
+                            list(getattr(mod, "TRUSTED", [])) +
+                            (["translator tools/translate_py.py with the Python semantics of coq/Base/PyLib.v (generated definitions "
+                              "validated against CPython on this run by tools/pycorr.py: %d cases, %d mismatches; functions: %s)"
+                              % (ctx.notes.get("pycorr_cases", 0), ctx.notes.get("pycorr_mismatches", 0), ", ".join(PYCORR[prop]))]
+                             if prop in PYCORR else []),
                theorems=proof["theorems"], axioms_per_theorem=proof["per_theorem"],
                stats=ctx.notes, known_findings_reproduced=sorted(known_hit),
                broken_ties=[b["what"] for b in ctx.broken_ties])
